@@ -246,6 +246,67 @@ def gen_case(rng, max_leaves=12, nops=None, small=False, hist=0.3):
     return case
 
 
+def gen_refused_case(rng, max_leaves=10, hist=0.15):
+    """wave 8: a history in which calls the API must refuse (REFUSED) are interleaved with the edits and distance
+    calls; each refused call is followed by weighted / unweighted distance calls on the tree it was aimed at (both
+    argument orders, default arguments and is_bipartitions_updated=True).  Two thirds of the cases start from trees
+    that are not rooted (the library then normalises the basal bifurcation while encoding)."""
+    case = gen_case(rng, max_leaves, small=rng.random() < 0.6, hist=hist)
+    if rng.random() < 0.67:
+        for t in case["trees"]:
+            if t["ns"] == 0:
+                t["rooted"] = rng.choice([None, False])
+    main = [i for i, t in enumerate(case["trees"]) if t["ns"] == 0]
+    nt = len(case["trees"])
+    ops = list(case["ops"])
+    for _ in range(rng.choice([1, 1, 2, 3])):
+        pos = rng.randint(0, len(ops))
+        a = rng.choice(main)
+        kind = rng.choice(["rc_sibling"] * 4 + ["rc_other"] * 3 + ["rc_self", "rc_parent", "rc_seed", "rc_foreign", "rc_foreign",
+                           "collapse_leaf", "outgroup_seed", "prune_seed", "add_self", "add_parent"])
+        b = rng.randrange(nt)
+        # arg: (arg % n) picks the argument node, (arg // 7) the receiver; small numbers aim at the seed's children
+        arg = rng.choice([0, 1, 1, 1, 2, 7, 8, rng.randrange(1000), rng.randrange(1000)])
+        new = [["refused", a, kind, arg, b]]
+        others = [x for x in main if x != a] or [a]
+        for _ in range(rng.choice([1, 2, 2])):
+            k = rng.choice(["wrf", "wrf", "euclid", "symdiff", "fpfn", "missing"])
+            o = rng.choice(others)
+            upd = rng.random() < 0.2
+            new.append([k, a, o, upd, "fn"])
+            if rng.random() < 0.7:
+                new.append([k, o, a, upd, "fn"])
+        if kind == "rc_foreign" and b in main and b != a:
+            new.append(["wrf", b, a, False, "fn"])
+        ops[pos:pos] = new
+    case["ops"] = ops
+    return case
+
+
+def refused_scope_cases():
+    """every refused remove_child (receiver, argument) pair on small not-rooted trees with a bifurcating seed, each
+    followed by the weighted distances to a re-drawing with the basal bifurcation already collapsed"""
+    out = []
+    L = 1024
+    for shape in ([[[], []], [[], [[], []]]], [[[], []], [[], []]], [[], [[], []]], [[[], []], [[], []], []]):
+        spec = trees.shape_to_tree(shape, lengths=lambda r: r.choice([L, 2 * L, 3 * L]), rng=random.Random(len(out)))
+        n = len(trees.leaves(spec))
+        nn = len(trees.preorder(spec))
+        args = []
+        for ci in range(nn - 1):
+            for ri in range(nn - 2):
+                args.append(("rc_other", next(x for x in range(20000) if x % (nn - 1) == ci and (x // 7) % (nn - 2) == ri)))
+        args += [("rc_self", x) for x in range(nn)] + [("rc_parent", x) for x in range(nn - 1)]
+        for rooted in (False, None, True):
+            for kind, arg in args:
+                out.append({"ntaxa": n, "holes": 0, "hole_seed": 1,
+                            "trees": [{"ns": 0, "spec": copy.deepcopy(spec), "rooted": rooted},
+                                      {"ns": 0, "spec": redraw(random.Random(arg), spec), "rooted": rooted}],
+                            "ops": [["refused", 0, kind, arg, 1], ["wrf", 0, 1, False, "fn"], ["euclid", 1, 0, False, "fn"],
+                                    ["symdiff", 0, 1, False, "fn"]]})
+    return out
+
+
 def gen_case0(rng, max_leaves=12, nops=None, small=False):
     r = rng.random()
     if small or r < 0.55:
@@ -366,7 +427,9 @@ def build_world(case):
 
 def dump(lv, tindex):
     spec, problems = trees.dump_dendropy(lv.tree, tindex, alloc=lv.alloc)
-    if problems:
+    if problems and not getattr(lv, "damaged", False):
+        # (damaged: a refused call was seen to change the pointers - reported by the oracle at that step; the history
+        # goes on with the child-list reading of the tree)
         raise RuntimeError("ill-formed tree in C04 harness: %s" % problems[:3])
     return (spec, lv.tree.is_rooted)
 
@@ -412,6 +475,101 @@ def apply_edit(lv, kind, arg, val):
         pass
     else:
         raise RuntimeError("unknown edit " + kind)
+
+
+# wave 8: calls the API must REFUSE with a documented error (kind -> exception class).  rc_* = Node.remove_child with
+# a node that is not a child of the receiver: a sibling / any other node / the receiver itself / the receiver's parent /
+# the seed / a node of ANOTHER tree; Edge.collapse of a leaf edge; to_outgroup_position / prune_subtree of the seed;
+# add_child of the node itself / of its own parent
+REFUSED = {"rc_sibling": "ValueErr", "rc_other": "ValueErr", "rc_self": "ValueErr", "rc_parent": "ValueErr",
+           "rc_seed": "ValueErr", "rc_foreign": "ValueErr", "collapse_leaf": "ValueErr", "outgroup_seed": "AssertErr",
+           "prune_seed": "TypeErr", "add_self": "AssertErr", "add_parent": "AssertErr"}
+
+
+def refused_call(lives, a, kind, arg, b):
+    """(thunk, description) of the refused call that the numbers designate on the trees as they are now, or None when
+    the trees offer no such argument"""
+    lv = lives[a]
+    tree = lv.tree
+    nodes = list(tree.preorder_node_iter())
+    seed, nonseed = nodes[0], nodes[1:]
+    nm = lambda t, nd: "tree%d.node%s" % (t, lives[t].alloc.of(nd))
+    rc = lambda p, c, t=a: ((lambda: p.remove_child(c)), "%s.remove_child(%s) [%s]" % (nm(a, p), nm(t, c), kind))
+    if kind in ("rc_sibling", "rc_other"):
+        if not nonseed:
+            return None
+        c = nonseed[arg % len(nonseed)]
+        cand = [x for x in c._parent_node._child_nodes if x is not c] if kind == "rc_sibling" else []
+        cand = cand or [x for x in nodes if x is not c._parent_node and x is not c]
+        return rc(cand[(arg // 7) % len(cand)], c) if cand else None
+    if kind == "rc_self":
+        c = nodes[arg % len(nodes)]
+        return rc(c, c)
+    if kind == "rc_parent":
+        if not nonseed:
+            return None
+        p = nonseed[arg % len(nonseed)]
+        return rc(p, p._parent_node)
+    if kind == "rc_seed":
+        return rc(nodes[arg % len(nodes)], seed)
+    if kind == "rc_foreign":
+        if b == a:
+            return None
+        other = list(lives[b].tree.preorder_node_iter())
+        return rc(nodes[(arg // 7) % len(nodes)], other[arg % len(other)], b)
+    if kind == "collapse_leaf":
+        lvs = [x for x in nonseed if not x._child_nodes]
+        if not lvs:
+            return None
+        x = lvs[arg % len(lvs)]
+        return (lambda: x.edge.collapse()), "%s.edge.collapse() [leaf edge]" % nm(a, x)
+    if kind == "outgroup_seed":
+        return (lambda: tree.to_outgroup_position(seed)), "tree%d.to_outgroup_position(seed)" % a
+    if kind == "prune_seed":
+        return (lambda: tree.prune_subtree(seed)), "tree%d.prune_subtree(seed)" % a
+    if kind == "add_self":
+        x = nodes[arg % len(nodes)]
+        return (lambda: x.add_child(x)), "%s.add_child(itself)" % nm(a, x)
+    if kind == "add_parent":
+        if not nonseed:
+            return None
+        x = nonseed[arg % len(nonseed)]
+        return (lambda: x.add_child(x._parent_node)), "%s.add_child(its own parent)" % nm(a, x)
+    raise RuntimeError("unknown refused call " + kind)
+
+
+def world_ptrs(lives, tindex):
+    """the whole pointer structure of the world: per tree the seed and rooting flag, per node object the harness knows
+    (in or out of a tree) parent pointer, child list, edge head / tail, edge length, taxon"""
+    name = {}
+    for ti, lv in enumerate(lives):
+        for nd in all_nodes(lv):
+            name.setdefault(id(nd), "%d.%d" % (ti, lv.alloc.of(nd)))
+    nm = lambda x: None if x is None else name.get(id(x), "?")
+    out = {}
+    for ti, lv in enumerate(lives):
+        out["tree%d" % ti] = [nm(lv.tree._seed_node), lv.tree._is_rooted]
+        for nd in all_nodes(lv):
+            e = nd._edge
+            out["node " + name[id(nd)]] = [nm(nd._parent_node), [nm(c) for c in nd._child_nodes[:2000]],
+                                           nm(None if e is None else e._head_node), nm(None if e is None else e.tail_node),
+                                           None if e is None else repr(e.length),
+                                           None if nd.taxon is None else tindex.get(id(nd.taxon), -1)]
+    return out
+
+
+def ptr_diff(p0, p1):
+    fields = ("_parent_node", "_child_nodes", "edge.head_node", "edge.tail_node", "edge.length", "taxon")
+    out = []
+    for k in sorted(set(p0) | set(p1)):
+        x, y = p0.get(k), p1.get(k)
+        if x == y:
+            continue
+        if x is None or y is None or k.startswith("tree"):
+            out.append("%s: %s -> %s" % (k, x, y))
+        else:
+            out.extend("%s %s: %s -> %s" % (k, f, u, v) for f, u, v in zip(fields, x, y) if u != v)
+    return out
 
 
 def all_nodes(lv):
@@ -526,19 +684,38 @@ def policy():
 def observe(case):
     lives, acc, bits, tindex = build_world(case)
     steps = []
-    for op in case["ops"]:
+
+    def one_step(op):
         before = [lv.last for lv in lives]
         rec = {}
-        if op[0] == "edit":
+        if op[0] in ("edit", "refused"):
             _, a, kind, arg, val = op
             lv = lives[a]
             enc0, bm0 = lv.tree.bipartition_encoding, lv.tree._bipartition_edge_map
-            try:
-                apply_edit(lv, kind, arg, val)
+            if op[0] == "refused":
+                # wave 8: a call the API must refuse; the whole world's pointers before and after it
                 rec["out"] = ["OUnit"]
-            except Exception as e:      # an edit refused by the library: structure still reported
-                rec["out"] = ["OUnit"]
-                rec["edit_error"] = core.exc_enum(e)
+                call = refused_call(lives, a, kind, arg, val)
+                rec["what"] = None if call is None else call[1]
+                rec["raised"] = None
+                p0 = world_ptrs(lives, tindex)
+                if call is not None:
+                    try:
+                        call[0]()
+                    except Exception as e:
+                        rec["raised"] = core.exc_enum(e)
+                        rec["msg"] = ("%s: %s" % (type(e).__name__, e))[:160]
+                rec["ptr_diff"] = ptr_diff(p0, world_ptrs(lives, tindex))
+                if rec["ptr_diff"]:
+                    for x in lives:
+                        x.damaged = True
+            else:
+                try:
+                    apply_edit(lv, kind, arg, val)
+                    rec["out"] = ["OUnit"]
+                except Exception as e:      # an edit refused by the library: structure still reported
+                    rec["out"] = ["OUnit"]
+                    rec["edit_error"] = core.exc_enum(e)
             spec, rooted = dump(lv, tindex)
             inside = {nd["id"] for nd in trees.preorder(spec)}
             det = []
@@ -555,8 +732,16 @@ def observe(case):
                            "bmap_reset": bm0 is not None and bm1 is None}
             lv.last = (spec, rooted)
             rec["changed"] = [[a, spec, rooted]]
-            steps.append(rec)
-            continue
+            if op[0] == "refused":
+                # every OTHER tree re-observed as well
+                rec["others"] = []
+                for i, x in enumerate(lives):
+                    if i != a:
+                        cur = dump(x, tindex)
+                        if cur != x.last:
+                            rec["others"].append([i, cur[0], cur[1]])
+                            x.last = cur
+            return rec
         try:
             if op[0] == "encode":
                 enc = lives[op[1]].tree.encode_bipartitions()
@@ -585,7 +770,17 @@ def observe(case):
                 ch.append([i, cur[0], cur[1]])
                 lv.last = cur
         rec["changed"] = ch
-        steps.append(rec)
+        return rec
+
+    for op in case["ops"]:
+        try:
+            steps.append(one_step(op))
+        except Exception:
+            # once a refused call was seen to damage the pointers (reported by the oracle at that step) the history
+            # ends where the harness itself can no longer read the trees
+            if any(getattr(x, "damaged", False) for x in lives):
+                break
+            raise
     # leaf bitmasks as encode_bipartitions() hands them out (Bipartition.leafset_bitmask of the leaf edges), per tree
     leafbits = []
     for lv in lives:
@@ -701,6 +896,16 @@ def oracle(case, obs):
 
 
 def oracle_values(case, obs):
+    """wave 8: a refused call that did not leave the world as it was is reported together with its first consequence
+    for a distance (the trees keep the meaning they had: a refused operation changes nothing)"""
+    pend = []
+    v = oracle_values0(case, obs, pend)
+    if pend:
+        return (pend[0][0] + ("; hence " + v[0] if v else ""), pend[0][1])
+    return v
+
+
+def oracle_values0(case, obs, pend):
     acc = {k: v for k, v in obs["acc"]}
     # ref: what each tree MEANS (the harness's spec, or the structure an edit left); cur: the latest dump
     # (the library normalises trees in place while encoding; that must not change their meaning)
@@ -714,6 +919,22 @@ def oracle_values(case, obs):
     seen = {}                         # (kind, a, b, epoch_a, epoch_b) -> out
     for step, (op, rec) in enumerate(zip(case["ops"], obs["steps"])):
         out = rec["out"]
+        if op[0] == "refused":
+            # the call must raise the documented error and change NOTHING: no pointer of any node of any tree, hence
+            # no tree's meaning, no cache validity (ref, cur, stale, epoch stay)
+            if rec["what"] is None:
+                continue
+            where = "step %d %s" % (step, rec["what"])
+            want = REFUSED[op[2]]
+            if rec["raised"] is None:
+                return ("%s returned instead of raising the documented %s" % (where, want), "not-refused:" + op[2])
+            if rec["raised"] != want:
+                return ("%s raised %s, documented is %s" % (where, rec.get("msg"), want), "refused-with-other-error:" + op[2])
+            if (rec["ptr_diff"] or rec["others"] or (rec["edit"]["spec"], rec["edit"]["rooted"]) != cur[op[1]]) and not pend:
+                d = rec["ptr_diff"] or ["the pointer dump from the seed changed"]
+                pend.append(("%s was refused (%s) but did not leave the trees as they were: %s"
+                             % (where, rec.get("msg"), "; ".join(d[:4])), "refused-call-changed-tree:" + op[2]))
+            continue
         if op[0] == "edit":
             a = op[1]
             ref[a] = cur[a] = (rec["edit"]["spec"], rec["edit"]["rooted"])
@@ -912,7 +1133,7 @@ def c_out(o):
 
 
 def c_op(op, rec):
-    if op[0] == "edit":
+    if op[0] in ("edit", "refused"):
         e = rec["edit"]
         det = clist([cpair(cz(i), cpair(copt(l, cz), cbool(t))) for i, l, t in e["det"]])
         return "(OpEdit %s %s %s %s %s %s)" % (cnat(op[1]), trees.c_tree(e["spec"]), copt(e["rooted"], cbool), det,
@@ -1152,7 +1373,7 @@ def search(ctx, budget_s):
     n = 0
     while time.time() - t0 < budget_s and n < 20000:
         # half of the histories over a namespace that itself has a history of additions and removals
-        case = gen_case(rng, 10, small=(n % 2 == 0), hist=0.5)
+        case = gen_refused_case(rng) if n % 3 == 2 else gen_case(rng, 10, small=(n % 2 == 0), hist=0.5)
         try:
             obs = observe(case)
         except Exception:
@@ -1225,6 +1446,12 @@ def run(tier, seed, replay=None):
     # (small namespaces with a history first: a violation is then reported on a short history)
     cases += sorted(rnd, key=lambda c: 0 if c.get("nshist") and c["ntaxa"] <= 6 else 1)
     cases.extend(history_scope_cases(ctx.rng, 2 if tier == "quick" else 3))
+    # wave 8: refused calls (documented errors) between the distance calls; own generator stream, so that the histories
+    # above are the ones of the earlier waves
+    rrng = random.Random(ctx.seed * 31 + 8)
+    scope = refused_scope_cases()
+    cases.extend(scope if tier == "thorough" else rrng.sample(scope, 60))
+    cases.extend(gen_refused_case(rrng, 10 if tier == "quick" else 14) for _ in range(140 if tier == "quick" else 2500))
     if tier == "thorough":
         cases.extend(exhaustive_cases(ctx.rng))
     for c in cases:
@@ -1236,7 +1463,7 @@ def run(tier, seed, replay=None):
         for t in c["trees"]:
             ctx.count("rooted:%s" % t["rooted"])
         for o in c["ops"]:
-            ctx.count("op:" + (o[0] if o[0] != "edit" else "edit-" + o[2]))
+            ctx.count("op:" + (o[0] if o[0] not in ("edit", "refused") else o[0] + "-" + o[2]))
             if o[0] in DIST_KINDS:
                 ctx.count("upd:%s" % o[3])
 
@@ -1272,7 +1499,12 @@ def run(tier, seed, replay=None):
              "taxa, 1-2 (thorough: 1-3) ordered removals and 1-2 later additions) and rarely a tree "
              "over a second namespace; three rooting states; length patterns all/none/mixed None/zeros/dyadics; histories of "
              "3-12 ops mixing edits (child swap, Edge.collapse, reseed_at, reroot_at_node, set length, set rooting) with "
-             "encode_bipartitions and the five distance functions through their public, alias and deprecated entry points, both "
+             "encode_bipartitions and the five distance functions through their public, alias and deprecated entry points; "
+             "wave 8: plus histories with 1-3 REFUSED calls (remove_child of a sibling / another node / the receiver itself / "
+             "its parent / the seed / a node of another tree, Edge.collapse of a leaf edge, to_outgroup_position / prune_subtree "
+             "of the seed, add_child of the node itself / its parent), each followed by distance calls on that tree, the "
+             "pointers of every node of every tree compared before/after (clause: a refused operation changes nothing), and "
+             "every refused remove_child pair on four small shapes; both "
              "values of is_bipartitions_updated and both argument orders; thorough adds every ordered pair of shapes with <=4 "
              "leaves incl. unifurcation variants under the three rootings; a case is non-trivial when it has >=3 leaves and >=2 "
              "distance calls that returned a value; distinct by full case content")
